@@ -116,8 +116,11 @@ func (p *Prog) memSame1(a, b ssa.Value) bool {
 				return false
 			}
 			if p.MayModifyField(in, fr) {
-				blocked = true
-				return true
+				// only if `to` is still reachable from here
+				if h, _ := Search(fn, in, nil, nil, func(x ssa.Instruction) bool { return x == to }); h != nil {
+					blocked = true
+					return true
+				}
 			}
 			return false
 		})
